@@ -42,26 +42,27 @@ type Result struct {
 
 // Defects switches on models of recorded tool defects (known findings); the zero value is the pure model.
 type Defects struct {
-	LenBytes            bool // F4: string length counted in bytes
-	OuterArrayLimits    bool // F5: every array depth uses the outermost min/maxItems
-	InlineItemNoRule    bool // F23: constraints of inline primitive array items are not enforced
-	IntBoundTrunc       bool // F2: fractional bounds on integers truncated toward zero
-	AddPropLax          bool // F9: typed additionalProperties integer accepts fractions (mapstructure)
-	AnyOfMerged         bool // F18: anyOf document must also decode into the merged struct
-	NullObjZero         bool // F28: null for required nullable object runs validators on zero struct
-	MaxZeroIgnored      bool // maxLength/maxItems/minimum-style zero sentinel (not representable: harness never states 0)
-	AddPropObjLax       bool // additionalProperties with object/array schema: values are not validated
-	NamedNullableNoRule bool // a named definition typed [scalar, "null"] is "type X *T": no methods, none of its rules is checked
-	AllOfNestedReuse    bool // allOf: an inline-object property of a member given by $ref keeps that definition's declared type; what later members say about the same property is lost
-	AllOfFirstWins      bool // allOf members are merged; for a keyword stated by several members the first one counts
-	UntypedCompDef      bool // a definition that is only allOf/anyOf (no type) whose members do not all state one type is interface{}
-	NamedNullZero       bool // null at a defaulted property that refers to a validated named scalar: the zero value is validated
-	Uint8ArrayBase64    bool // --min-sized-ints: an array of integers within 0..255 is a []byte and accepts base64 strings
-	NamedFormat         bool // definition/root of a format string is a named struct type without methods
-	NamedArrayNoLim     bool // a definition/root of type array is a named slice type without any validator
-	EnumNullZero        bool // null for a defaulted enum-typed property runs the enum check on the zero value
-	NullItemsNoLim      bool // an array whose items are of type "null" gets the null check but no length validator
-	MapValueAnon        bool // inline object/array schemas used as additionalProperties of a property-less object are anonymous Go types
+	LenBytes                  bool // F4: string length counted in bytes
+	OuterArrayLimits          bool // F5: every array depth uses the outermost min/maxItems
+	InlineItemNoRule          bool // F23: constraints of inline primitive array items are not enforced
+	IntBoundTrunc             bool // F2: fractional bounds on integers truncated toward zero
+	AddPropLax                bool // F9: typed additionalProperties integer accepts fractions (mapstructure)
+	AnyOfMerged               bool // F18: anyOf document must also decode into the merged struct
+	NullObjZero               bool // F28: null for required nullable object runs validators on zero struct
+	MaxZeroIgnored            bool // maxLength/maxItems/minimum-style zero sentinel (not representable: harness never states 0)
+	AddPropObjLax             bool // additionalProperties with object/array schema: values are not validated
+	UndeclaredRequiredIgnored bool // a name in "required" that is not declared under "properties" is not checked
+	NamedNullableNoRule       bool // a named definition typed [scalar, "null"] is "type X *T": no methods, none of its rules is checked
+	AllOfNestedReuse          bool // allOf: an inline-object property of a member given by $ref keeps that definition's declared type; what later members say about the same property is lost
+	AllOfFirstWins            bool // allOf members are merged; for a keyword stated by several members the first one counts
+	UntypedCompDef            bool // a definition that is only allOf/anyOf (no type) whose members do not all state one type is interface{}
+	NamedNullZero             bool // null at a defaulted property that refers to a validated named scalar: the zero value is validated
+	Uint8ArrayBase64          bool // --min-sized-ints: an array of integers within 0..255 is a []byte and accepts base64 strings
+	NamedFormat               bool // definition/root of a format string is a named struct type without methods
+	NamedArrayNoLim           bool // a definition/root of type array is a named slice type without any validator
+	EnumNullZero              bool // null for a defaulted enum-typed property runs the enum check on the zero value
+	NullItemsNoLim            bool // an array whose items are of type "null" gets the null check but no length validator
+	MapValueAnon              bool // inline object/array schemas used as additionalProperties of a property-less object are anonymous Go types
 }
 
 type evalCtx struct {
@@ -885,6 +886,9 @@ func (c *evalCtx) evalObject(s *sg.Schema, o jsonx.Obj, path string, pos ctxPos)
 		if s.Prop(r) == nil && len(s.Props) == 0 {
 			c.dontcare("required-without-properties", path+"/"+r)
 			continue
+		}
+		if c.d.UndeclaredRequiredIgnored && s.Prop(r) == nil {
+			continue // defect model: a required name without a declared property is not checked
 		}
 		c.fault("required", path+"/"+r)
 	}
